@@ -15,7 +15,8 @@ CLAIMED = {
                      "five value-starting token kinds and dispatches them alike; reserved-word recognisers agree. These are necessary "
                      "conditions of correct parsing; the scanner's transitions on arbitrary documents are not decided. "
                      "Also: the scanner's end-of-input mark (CIF_EOF) is returned by no scan/parse function other than the refill functions (flow-sensitive may-return analysis), and the closing-delimiter run counter of triple-quoted strings is reset by every other character. "
-                     "Also: the two bracket arms of scan_unquoted decide from the same variables.",
+                     "Also: the two bracket arms of scan_unquoted decide from the same variables. "
+                     "Also (round 6): the character-source accounting rule of C08 (every character read is added to the window; a read ending in CR is remembered from the data as read) is reported here too.",
                 note=TB + "; the grammar table transcribed in cifsa/rules/c01.py",
                 tech="constant-table reconstruction from AST stores + switch/case-label dispatch analysis on CFGs; may-return value analysis (A1) iterated over the call graph; run-counter reset reachability"),
     "C02": dict(level="other", ref="5 C02",
@@ -25,7 +26,8 @@ CLAIMED = {
                      "(path-universal dataflow); delimiter choice has a single source. Round-trip equality is not decided. "
                      "Also: with write_char's arguments substituted, the writers' indexes into the analysed text stay within it and their success tests are satisfiable; magic comparisons use the full code for '== 0' and the version-independent prefix for '!= 0'. "
                      "Also (text fields and layout): every logical line of a folded/prefixed text field gets its line terminator, a protected line its empty continuation line; the prefix/refusal decision depends on a leading semicolon and the fold decision on the prefix length; %S precisions are counted in UChar units; no local copy of last_column is used after output moved the column. "
-                     "Also: range tests on surrogates cut exactly at the class boundaries; the tracked column advances by what each counted emission wrote.",
+                     "Also: range tests on surrogates cut exactly at the class boundaries; the tracked column advances by what each counted emission wrote. "
+                     "Also (round 6): a text field is written only where allow_text holds, in either CIF version.",
                 note=TB + "; ICU u_fprintf/u_fputc return conventions (count written / character written)",
                 tech="table agreement + emission/accounting typestate dataflow + who-may-call on the call graph; inter-procedural linear substitution of call arguments; per-iteration must-pass-through with branch facts; dependence closure incl. control dependence; staleness may-dataflow; units of printf precisions; boundary-table check of relational comparisons; format-string accounting"),
     "C03": dict(level="other", ref="5 C03",
@@ -36,7 +38,8 @@ CLAIMED = {
                      "its reason. Termination, memory safety on arbitrary bytes and post-abort consistency are not decided. "
                      "Also (termination/bounds, necessary conditions only): no loop of the parser units is idempotent, and no read-buffer pointer is dereferenced under '<=' against an exclusive end. "
                      "Also: no parser function returns the scanner's private CIF_EOF mark (a defined result code is returned). "
-                     "Also: index variables of signed type into fixed-size tables are non-negative by construction or tested.",
+                     "Also: index variables of signed type into fixed-size tables are non-negative by construction or tested. "
+                     "Also (round 6): a table entry claiming a code is tolerated by a case label is verified against the switch (landing block equals that of CIF_OK).",
                 note=TB + "; flow-insensitive may-return-code summaries (over-approximate); the cannot-occur table was triaged by reading "
                      "each call site; 5 genuine defects are recorded as known findings",
                 tech="verdict-propagation typestate dataflow + may-return-code summaries over the call graph; natural-loop read/write analysis; may-return value analysis (A1) over the call graph; reaching-definition sign analysis of index variables"),
@@ -48,7 +51,8 @@ CLAIMED = {
                      "sqlite3_errmsg. Results of arbitrary API histories are not decided. "
                      "Every reference to loop / loop_item / item_value in every query block of the embedded statements is tied to a container (R5). "
                      "Also: every decision 'this category is the scalar category' answers no for a NULL category (three-valued evaluation of the controlling expression, or dominance by a non-NULL test). "
-                     "Also: the look-up by code of a table whose creation has a lenient (non-validating) mode normalises its key without validating.",
+                     "Also: the look-up by code of a table whose creation has a lenient (non-validating) mode normalises its key without validating. "
+                     "Also (round 6): cif_is_valid_name counts code points and accepts names up to exactly the documented limits (shared with C09).",
                 note=TB + "; SQLite (python3 sqlite3 module) as parser of the embedded SQL; a light tokenizer maps ?-parameters to columns",
                 tech="static analysis of embedded SQL + bind/column site join + must-bind dataflow; three-valued evaluation of branch conditions"),
     "C05": dict(level="proof", ref="5 C05",
@@ -57,7 +61,8 @@ CLAIMED = {
                      "after rolling back modifications, multi-statement modifications only inside a transaction. This decides "
                      "the structural necessary condition of failure-atomicity (all exits x all functions), not database contents. "
                      "The typestate distinguishes COMMIT/ROLLBACK (end every level, enclosing ones included) from RELEASE/ROLLBACK TO and records what sqlite3_get_autocommit said about an enclosing transaction. "
-                     "Also: a function whose own level is `savepoint s` never calls one that can set `savepoint s` (ROLLBACK TO keeps the savepoint), and no plain ROLLBACK runs without an own transaction where an enclosing one is not excluded.",
+                     "Also: a function whose own level is `savepoint s` never calls one that can set `savepoint s` (ROLLBACK TO keeps the savepoint), and no plain ROLLBACK runs without an own transaction where an enclosing one is not excluded. "
+                     "Also (round 6): a savepoint opened outside any transaction is released on every exit (ROLLBACK TO alone leaves the implicit transaction open).",
                 note=TB + "; SQLite transaction semantics (rollback restores the begin/savepoint state; single statements are atomic)",
                 tech="typestate dataflow (status-sensitive, disjunctive) over clang CFGs + call-graph summaries"),
     "C06": dict(level="other", ref="5 C06",
@@ -75,7 +80,8 @@ CLAIMED = {
                      "SQLITE_STATIC binds outlive the step; buffer primitives clamp. Equality of round-tripped values is not decided. "
                      "Also: no storage loop is idempotent (the buffer-growth loop advances); an attribute read back from storage is not overwritten by a later callee's constant store (mod-set summaries). "
                      "Also: serialiser and deserialiser agree on which field each string position holds; the sign of a number (not stored) is recomputed from the text. "
-                     "Also: cif_buf_write copies only where the capacity is known to cover position + len (must-fact established by the growth loop's exit test).",
+                     "Also: cif_buf_write copies only where the capacity is known to cover position + len (must-fact established by the growth loop's exit test). "
+                     "Also (round 6): every uthash insertion files the value under u_strlen(key) * sizeof(UChar) of the very key stored (shared with C09 / C19).",
                 note=TB + "; SQLite as parser of the embedded SQL",
                 tech="writer/reader table extraction from macro expansions in the AST + agreement checks; loop-carried-state analysis + last-store mod-set summaries over the call graph; positional field correspondence through locals; must-fact dataflow on relational facts"),
     "C08": dict(level="other", ref="5 C08",
@@ -87,7 +93,8 @@ CLAIMED = {
                      "folding and alignment independence in general are not decided. "
                      "Also: per-character scan state is not reset on the refill path; every character delivered by the character source is accounted in buffer_limit; a CR ending a read is remembered in the scanner. "
                      "Also: the byte-to-character source is marked drained only on paths where the converter status excludes U_BUFFER_OVERFLOW_ERROR. "
-                     "Also: after get_more_chars moved kept data, tvalue_start / next_char are re-based with distances measured on the old window.",
+                     "Also: after get_more_chars moved kept data, tvalue_start / next_char are re-based with distances measured on the old window. "
+                     "Also (round 6): after an initial CR only UCHAR_NL completes the terminator.",
                 note=TB + "; functions that may refill = transitive callers of get_more_chars within parser.c",
                 tech="staleness may-dataflow + must-pass-through / pairing queries on CFGs; loop nesting + upward-exposed-use analysis; guard-edge reachability from the conversion call"),
     "C09": dict(level="other", ref="5 C09",
@@ -97,7 +104,8 @@ CLAIMED = {
                      "NFC chained through its buffers, and the validating variants validate first. What ICU computes and the per-code-"
                      "point accept/reject boundary are not decided. "
                      "Also: data names are (re-)validated by the data-name normaliser and codes by the code normaliser, decided from the tables each function's statements touch. "
-                     "Also: range tests on code units cut exactly at the boundaries of the surrogate and non-character classes.",
+                     "Also: range tests on code units cut exactly at the boundaries of the surrogate and non-character classes. "
+                     "Also (round 6): the name length limit is counted in code points, inclusive.",
                 note=TB + "; SQLite as parser of the embedded SQL; frozen already-normalised parameter table (DESIGN.md A.3)",
                 tech="who-may-reach / must-pass-through over call graph and bind sites + call-order check; statement-table domain inference per function; boundary-table check of relational comparisons"),
     "C10": dict(level="other", ref="5 C10",
@@ -116,7 +124,8 @@ CLAIMED = {
                      "under their version guards. The option x leading-bytes decision table needs evaluation on data: not decided. "
                      "The comparison polarity rule: a '!= 0' test ('no magic code of any version') compares only the version-independent prefix. "
                      "Also: every expansion of the per-character validation macro reports U+FEFF as CIF_DISALLOWED_CHAR in both dialects (a BOM is accepted only as the first character). "
-                     "Also: the encoding name of a detected Unicode signature is overwritten only where it was found NULL.",
+                     "Also: the encoding name of a detected Unicode signature is overwritten only where it was found NULL. "
+                     "Also (round 6): the named default encoding is used where documented; prefer_cif2 reaches the scanner on every path without a version comment; not_utf8 depends on the converter name alone.",
                 note=TB,
                 tech="constant-table agreement + guard-edge dominance on the CFG; comparison-polarity check; conditional constant propagation of the validation macro over its CFG for chosen code units; guard-edge reachability from the detection call"),
     "C12": dict(level="other", ref="5 C12",
@@ -127,7 +136,8 @@ CLAIMED = {
                      "(verdict propagation, routing) are prerequisites checked under C03. "
                      "Also: the over-length test allows for a terminator already counted in the column (must-dataflow), and every hand-written move of next_char has the matching column change. "
                      "Also: the per-character validation macro reports exactly the non-character code units among chosen probes; no BACK_UP is reachable from an end-of-input outcome without a character scanned in between. "
-                     "Also: range tests of the scanner cut at class boundaries; a rewind of the scan position to the token start resets the column; copies of the token length are not used after the token was shortened.",
+                     "Also: range tests of the scanner cut at class boundaries; a rewind of the scan position to the token start resets the column; copies of the token length are not used after the token was shortened. "
+                     "Also (round 6): the case label of a code the recovery rules tolerate (CIF_NULL_LOOP after accepted duplicate names) lands in the arm of CIF_OK (shared with C03 R2b).",
                 note=TB + "; the recovery table in parser.c's documentation comment is the oracle for actions",
                 tech="table agreement + must/may token-consumption queries on CFGs; must-fact dataflow for column/terminator accounting; conditional constant propagation over a macro expansion; fact-consistent reachability"),
     "C13": dict(level="other", ref="5 C13",
@@ -137,7 +147,8 @@ CLAIMED = {
                      "refused; the validator's table is the CIF 1.1 character set and is indexed within bounds. "
                      "Also: the analyser statistic behind the text-field refusal (contains_text_delim) is accumulated monotonically. "
                      "Also the text-field body rules shared with C02 (line terminators, protected lines, leading semicolon, prefix length in the fold decision). "
-                     "Also: the tracked column advances by what each counted emission wrote (delimiters included).",
+                     "Also: the tracked column advances by what each counted emission wrote (delimiters included). "
+                     "Also (round 6): a refusal by the CIF 1.1 validator inside a loop over names is not overwritten by a later name's acceptance; a text field is written only where one is allowed, in either version.",
                 note=TB + "; write_context_t.version is constant during a write (checked: stored only by cif_write); one named "
                      "exemption: text of unquoted numbers",
                 tech="typestate dataflow (validated-set) + forwarder summaries + guard dominance + table agreement; monotone-update check; per-iteration must-pass-through with branch facts"),
@@ -159,10 +170,10 @@ CLAIMED = {
                      "reachable callback sites do not depend on the presence of a target CIF; each production honours its depth "
                      "contract; depth stores have the directive-driven form. Document order and callback arguments are not decided. "
                      "Also: no bookkeeping variable that decides an error report is assigned only under one outcome of a skip_depth test (skipping does not alter syntax checking). "
-                     "Also: no production returns SKIP_CURRENT / SKIP_SIBLINGS received from a handler (may-return analysis); syntax-error callbacks with a literal code are reached with or without a target CIF.",
-                note=TB + "; depth contract of parse_loop_packets assumed (loop-carried pairing keyed on column_index), handlers "
-                     "cannot modify the scanner",
-                tech="context-sensitive interval abstract interpretation over clang CFGs (assume-guarantee contracts per production); edge-dominance non-interference check; A1 may-return value analysis with handler calls as sources"),
+                     "Also: no production returns SKIP_CURRENT / SKIP_SIBLINGS received from a handler (may-return analysis); syntax-error callbacks with a literal code are reached with or without a target CIF. "
+                     "Also (round 6): directive scope - entered at depth 0, a production returns at depth 1 exactly when the last depth store on the path answered SKIP_SIBLINGS from a handler of its own element (ghost state: last handler, last store, selecting directive); parse_loop_packets' depth contract is now analysed with the column index followed as first / later.",
+                note=TB + "; handlers cannot modify the scanner; the own-element table of the five productions (c15.OWN_HANDLERS) is part of the rule",
+                tech="context-sensitive interval abstract interpretation over clang CFGs (assume-guarantee contracts per production); edge-dominance non-interference check; A1 may-return value analysis with handler calls as sources; path-sensitive ghost state (last handler / last depth store / selecting directive) in the same interpretation"),
     "C16": dict(level="other", ref="5 C16",
                 text="Four rule groups over all units: ownership typestate (per-function dataflow with aliases, allocator/release/transfer "
                      "summary tables: every object a function acquires is released or handed over exactly once on every path; no double "
@@ -171,7 +182,8 @@ CLAIMED = {
                      "accumulation and kind-before-fields. Absence of undefined behaviour in general (value ranges of all arithmetic, "
                      "array *elements*, SQLite/ICU internals) is not decided. "
                      "Also: key/key_orig aliasing discipline at every free; allocation extent vs constant-offset index; realloc growth increment >= 1 (interval evaluation); exclusive-end guards; no pointer field freed while the kind that owns it stays set; a stored `capacity` equals the element count of the block allocated for the same object. "
-                     "Also: all setlocale calls of the save/switch/restore protocol use one category; every allocation that can be the last before a capacity store agrees with it; no HASH_ITER body writes the look-ahead variable.",
+                     "Also: all setlocale calls of the save/switch/restore protocol use one category; every allocation that can be the last before a capacity store agrees with it; no HASH_ITER body writes the look-ahead variable. "
+                     "Also (round 6): signed index variables into fixed-size tables have a lower bound (shared with C03 R6).",
                 note=TB + "; frozen allocator table (own.ALLOC_OUT, 44 entries), 4 named exemptions (DESERIALIZE macro family, parse_table's "
                      "dead allocating arm); linked-list / hash / array elements are outside the alias model; 3 genuine defects are "
                      "recorded as known findings",
@@ -192,9 +204,10 @@ CLAIMED = {
                      "next_token; the analyser's length margins equal the writer's delimiter overheads and its delim_length values are "
                      "the writer's case labels. Read-back of each recommended form is not decided. "
                      "Also: guards on the way to recommending delimiter D test evidence about D only; whole-string statistics are accumulated monotonically; the parser's closing-delimiter counter counts contiguous characters (reset by every other character), as the analyser's u_strstr test assumes. "
-                     "Also: the store that marks a character value unquoted is dominated by a non-zero test of the text's first character.",
+                     "Also: the store that marks a character value unquoted is dominated by a non-zero test of the text's first character. "
+                     "Also (round 6): the histogram index of cif_analyze_string, evaluated for every UTF-16 code unit, stays inside the array and maps onto a slot the cascade reads only the code unit of that number.",
                 note=TB,
-                tech="constant/operand extraction from ASTs + table agreement; edge-dominance evidence check"),
+                tech="constant/operand extraction from ASTs + table agreement; edge-dominance evidence check; exhaustive constant evaluation of an index expression over the 65535 UTF-16 code units"),
     "C19": dict(level="other", ref="5 C19",
                 text="Structural contracts of value objects: escape analysis with call-graph summaries shows that no storing entry point "
                      "lets a source argument (or a pointer read out of it) be stored into the heap - stored copies share no storage "
